@@ -78,8 +78,9 @@ TPlace ==
 TDown == IsEvent("CDown") /\ down' = E.server /\ Env /\ UNCHANGED <<pts, where, srvOf>>
 
 \* failed list of an update / delete: exactly the requested ids no shard processed
-FailedOK(requested, processed) ==
-  /\ Len(E.failed) = Cardinality({E.failed[k].id : k \in DOMAIN E.failed})
+\* (an id is listed at most as often as the request named it: once, unless the request repeats it)
+FailedOK(reqSeq, requested, processed) ==
+  /\ \A i \in requested : Cardinality({k \in DOMAIN E.failed : E.failed[k].id = i}) <= Cardinality({k \in DOMAIN reqSeq : reqSeq[k] = i})
   /\ {E.failed[k].id : k \in DOMAIN E.failed} = requested \ processed
   /\ \A k \in DOMAIN E.failed : E.failed[k].nf = 1 => AllAnswered
 
@@ -94,7 +95,7 @@ TUpdate ==
   /\ E.ok = 1
   /\ LET req == {E.pts[k].id : k \in DOMAIN E.pts}
          proc == {i \in req \cap DOMAIN pts : Reachable(i)}
-     IN  /\ FailedOK(req, proc)
+     IN  /\ FailedOK([k \in DOMAIN E.pts |-> E.pts[k].id], req, proc)
          /\ pts' = ApplyOn(pts, E.pts, proc)
 
 TDelete ==
@@ -102,7 +103,7 @@ TDelete ==
   /\ E.ok = 1
   /\ LET req == AsSet(E.ids)
          proc == {i \in req \cap DOMAIN pts : Reachable(i)}
-     IN  /\ FailedOK(req, proc)
+     IN  /\ FailedOK(E.ids, req, proc)
          /\ pts' = [i \in DOMAIN pts \ proc |-> pts[i]]
 
 Obs == UNCHANGED <<pts, where, srvOf, down>> /\ Env
